@@ -116,7 +116,29 @@ Theorem C11_minimize_object_state {T : Type} (Ops : NumOps T) (f : list T -> T) 
   ob_nfunc ob' = o_nfunc o /\ ob_fmin ob' = o_fmin o /\ ob_y ob' = o_y o /\ ob_simplex ob' = o_simplex o /\
   ob_mpts ob' = length pp /\ ob_ndim ob' = length (nth 0 pp []).
 Proof. exact (obj_minimize_general_state Ops f ob ftol pp ob' o). Qed.
+(** by-reference arguments that are public members of Minimization objects (all three overloads take non-const references; y and
+    current_simplex are public): minimize(m.current_simplex, f), minimize(m.current_simplex[i], deltas, f), deltas = m.y, one vector
+    for starting point and displacements, members of other objects.  The answer is the answer of a fresh object on the values the
+    referents hold when the call starts (so C11_minimize_general_spec applies to such calls too). *)
+Theorem C11_minimize_member_arguments {T : Type} (Ops : NumOps T) (objs : list nmobj) (ftols : list T) (ob : nat) (r : nmreq) :
+  rmap snd (objs_call Ops objs ftols ob r) = fresh_call Ops (nth ob ftols (n0 Ops)) (req_call Ops objs r).
+Proof. exact (objs_call_fresh Ops objs ftols ob r). Qed.
+
+(** restart idioms never end worse than the call they restart from: after any call with objective f on object number ob returned o1,
+    minimize(m.current_simplex, f) [the member itself], minimize(m.current_simplex[0], deltas, f) and minimize(m.current_simplex[0], delta, f)
+    [the reported point by reference; deltas may be any vector, a member, or the starting vector itself] on the same object return
+    fmin <= o1's fmin, for every tolerance *)
+Theorem C11_restart_not_worse {T : Type} (Ops : NumOps T) (OL : OrdLaws Ops) objs ftols ob r1 objs1 o1 r2 ftols2 objs2 o2 :
+  (ob < length objs)%nat ->
+  objs_call Ops objs ftols ob r1 = Ok (objs1, o1) ->
+  let f := call_f (req_call Ops objs r1) in
+  (r2 = ReqGS f ob \/ (exists ds, r2 = ReqD f (VRow ob 0) ds) \/ (exists d, r2 = Req1 f (VRow ob 0) d)) ->
+  objs_call Ops objs1 ftols2 ob r2 = Ok (objs2, o2) ->
+  le Ops (o_fmin o2) (o_fmin o1).
+Proof. exact (objs_restart_not_worse Ops OL objs ftols ob r1 objs1 o1 r2 ftols2 objs2 o2). Qed.
 Print Assumptions C11_minimize_history_independent.
+Print Assumptions C11_minimize_member_arguments.
+Print Assumptions C11_restart_not_worse.
 Print Assumptions C11_minimize_run_history_independent.
 Print Assumptions C11_minimize_object_state.
 Print Assumptions C11_bracket_post.
